@@ -14,34 +14,52 @@
 //   - "the same ids and blobs come back", "classified identically": Code, SubmittedCount, IDs, Height and
 //     Data of the two results must be equal. Message texts need not be equal, but block.Manager decides
 //     "height from the future" by looking for the sentinel's text in the message (block/retriever.go:92),
-//     so the truth value of that substring test must be equal too. Timestamps are not named by the
-//     statement; their agreement is only counted.
+//     so the truth value of that substring test must be equal too. The time the DA layer reports for a
+//     height (ResultRetrieve.Timestamp, the block time of a based sequencer) must come back as the same
+//     instant (time.Time.Equal: sub-second precision kept, zone and representation free); the backings
+//     report times with nanoseconds in three different zones.
 //   - Errors: the quantifier is "every error the DA interface defines" (the eight sentinels of
-//     core/da/errors.go) plus cancellation (context.Canceled, context.DeadlineExceeded, also while the call
-//     is blocked inside the DA layer). Each is produced plain and wrapped with fmt.Errorf("...: %w").
-//     "Indistinguishable" also means that an error that is none of these stays the generic error on both
-//     paths, so unrelated errors whose text merely contains a sentinel's text are part of the clean region
-//     (e.g. context.DeadlineExceeded = "context deadline exceeded" against the sentinel "context
-//     deadline"). The only exception: an unrelated error whose text EQUALS a sentinel's text cannot be told
-//     apart by any transport that carries text; its status code is recorded, not judged (Op.NoJudgeCode).
+//     core/da/errors.go) plus cancellation (the caller's context ending with context.Canceled or
+//     context.DeadlineExceeded, also while the call is blocked inside the DA layer). Each sentinel is
+//     produced plain and wrapped in every position: fmt.Errorf("...: %w"), doubly, sentinel first
+//     ("%w: detail") and in the middle ("...: %w: detail"); errors.Is sees all of them in process.
+//     NOT promised, and therefore recorded (counters unpromised_error_*) instead of judged, is the status
+//     code of errors that are none of these: unrelated errors whose text equals, starts with or embeds a
+//     sentinel's text, and the standard library's context errors returned by the DA layer while the
+//     caller's context is alive. Everything else of such a call (count, ids, what was stored) is still
+//     compared. A plain unrelated error ("generic") must stay the generic error on both paths.
 //   - A DA layer that returns ids together with an error is outside the DA interface's contract (and
 //     JSON-RPC carries either a result or an error); the backing never does that.
 //   - The size filter lives in the client; the direct path has none. "The same DA layer called directly"
-//     is therefore read as follows. Let L be the client's limit (API.MaxBlobSize: NewClient sets the
-//     package default, the harness overrides the exported field for small limits exactly as the
-//     repository's tests do), B the blobs, k the largest number such that the first k blobs together are
-//     <= L (computed here, independently).
-//     (a) Backing with the same limit L and the policy of core/da.DummyDA (the repository's in-process
-//     DA: an individual blob > L among those looked at => ErrBlobSizeOverLimit, otherwise the longest
-//     fitting prefix is stored): the direct path is given all of B and the two results must be equal.
-//     (b) Backing with no limit (like da/cmd/local-da) or a smaller one: a direct call with all of B
-//     would legitimately store more than the client sends, so the direct path is given B[:k], i.e.
-//     exactly the call the statement says the client makes, and the two results must be equal.
-//     (c) Separately, on the proxied side alone: the backing received exactly B[:k] (prefix clause; if
-//     the first blob that does not fit is by itself > L, "blob too big" with nothing sent is accepted as
-//     well, and is the only accepted answer when k = 0); SubmittedCount never exceeds, and on success
-//     equals, the number of blobs the backing stored in this call; the ids are the ids the backing
-//     handed out; what it stored are the first SubmittedCount blobs of B.
+//     is therefore read as: the direct DA layer is given exactly the call the client made, i.e. the blobs
+//     the DA layer behind the proxy received. Separately, on the proxied side alone, with L the client's
+//     limit and B the caller's list:
+//     (a) what the backing received is a prefix B[:m] of B, m >= 1, and its raw size is <= L;
+//     (b) it is the longest prefix that fits, where "fits" is the client's own notion, anchored as follows.
+//     Once per limit the harness asks the real client (calls that the backing records and discards)
+//     whether a single blob of L bytes is passed on and one of L+1 bytes is not. If the latter is passed
+//     on, the limit the harness set through the exported field API.MaxBlobSize (as the repository's tests
+//     do; NewClient sets the package default) is not what the client filters with: the cases with that
+//     limit are not run and the run is inconclusive. If a blob of exactly L bytes is passed on, the client
+//     counts raw bytes and m must be the largest number of leading blobs whose sizes sum to <= L
+//     (computed here, independently). Otherwise the client counts something stricter (framing, encoded
+//     size): then m is accepted if the client, given B[:m+1] alone, does not pass all m+1 on.
+//     (c) if nothing was sent although B is not empty, some blob of B must be too big by itself (raw size
+//     > L, or refused by the client when given alone) and the result must be "blob too big", count 0, no
+//     ids. Both policies for a list with an oversize blob behind a fitting prefix are accepted: refuse
+//     the whole list (what the client does today) or submit the prefix in front of it;
+//     (d) SubmittedCount never exceeds, and on success equals, the number of blobs the backing stored in
+//     this call; the ids are the ids the backing handed out; what it stored are the first
+//     SubmittedCount blobs of B.
+//     The backing itself has the same limit with the policy of core/da.DummyDA, none (da/cmd/local-da) or
+//     half of it, so that refusals and cuts made by the DA layer behind the server cross the wire too.
+//   - The six interface methods without a node-side helper (Submit, GetProofs, Validate, Commit, GasPrice,
+//     GasMultiplier; the sequencers call them) are called on both paths with the same arguments: the
+//     values that come back, whether an error comes back, and for Submit what the DA layer stored and the
+//     gas price it was given must be equal. Which error it is is only recorded for these methods.
+//   - Cancellation that does not reach the DA layer behind the server (the client returns "cancelled", the
+//     backing call stays blocked) cannot be decided logically - the server learns about it from a closed
+//     connection, asynchronously - and stays inconclusive after the 20 s watchdog.
 //   - A call in which the client must refuse a blob (above its limit) is never combined with a scripted DA
 //     failure or a dead context: which of two causes wins is not fixed by the statement.
 //   - An empty list is only ever scripted to succeed: the client answers it without a round trip, which
@@ -65,6 +83,7 @@ import (
 	"sort"
 	"strings"
 	"sync"
+	"time"
 
 	logging "github.com/ipfs/go-log/v2"
 
@@ -121,9 +140,10 @@ type Obs struct {
 	Data    []string `json:"data,omitempty"`
 	Message string   `json:"message"`
 	Future  bool     `json:"manager_reads_from_future"`
+	Time    string   `json:"timestamp,omitempty"`
 	ids     [][]byte
 	data    [][]byte
-	tsUnix  int64
+	ts      time.Time
 }
 
 func short(list [][]byte) []string {
@@ -156,7 +176,7 @@ func obsSubmit(r coreda.ResultSubmit) Obs {
 
 func obsRetrieve(r coreda.ResultRetrieve) Obs {
 	return Obs{Code: uint64(r.Code), Count: r.SubmittedCount, Height: r.Height, IDs: short(r.IDs), Data: short(r.Data), Message: r.Message,
-		Future: managerReadsFuture(r.Code, r.Message), ids: r.IDs, data: r.Data, tsUnix: r.Timestamp.Unix()}
+		Future: managerReadsFuture(r.Code, r.Message), ids: r.IDs, data: r.Data, ts: r.Timestamp, Time: r.Timestamp.Format(time.RFC3339Nano)}
 }
 
 func sameList(a, b [][]byte) bool {
@@ -191,6 +211,11 @@ func diff(d, p Obs) []string {
 	}
 	if d.Future != p.Future {
 		out = append(out, "from-the-future-substring")
+	}
+	// the time the DA layer reports for a height becomes the block time of a based sequencer: the same
+	// instant must come back (zone and representation are free)
+	if coreda.StatusCode(d.Code) == coreda.StatusSuccess && coreda.StatusCode(p.Code) == coreda.StatusSuccess && !d.ts.Equal(p.ts) {
+		out = append(out, "Timestamp")
 	}
 	return out
 }
@@ -239,6 +264,7 @@ type runner struct {
 	reported map[string]bool
 	tsEqual  int64
 	tsDiff   int64
+	cal      map[uint64]fitCal // by Case.ClientLimit (0 = the limit NewClient chooses)
 }
 
 // caseRun is the state of one case being executed.
@@ -246,7 +272,7 @@ type caseRun struct {
 	x       *runner
 	c       Case
 	p       *pair
-	mode    string // full | prefix: what the direct path is given when a batch exceeds the client's limit
+	cal     fitCal
 	lastH   uint64 // height of the most recent successful store (direct path)
 	gapH    uint64
 	aborted bool
@@ -255,7 +281,8 @@ type caseRun struct {
 }
 
 func (x *runner) witness(cr *caseRun, opIdx int, d, p *Obs, extra map[string]any) map[string]any {
-	w := map[string]any{"case": cr.c, "op_index": opIdx, "client_limit_in_force": cr.p.limit, "direct_given": cr.mode}
+	w := map[string]any{"case": cr.c, "op_index": opIdx, "client_limit_in_force": cr.p.limit,
+		"direct_given": "the blobs the DA layer behind the proxy received in this call", "client_fit_predicate": cr.cal.String()}
 	if opIdx >= 0 && opIdx < len(cr.c.Ops) {
 		w["op"] = cr.c.Ops[opIdx]
 	}
@@ -307,13 +334,24 @@ func (x *runner) judge(cr *caseRun, opIdx int, clause string, d, p Obs, backErr,
 		}
 	}
 	df := diff(d, p)
-	if op.NoJudgeCode {
-		region = "not-judged(text equals a sentinel's)"
+	if u := unpromised(op); u != "" || op.NoJudgeCode {
+		// not one of the errors the DA interface defines: how such an error is classified on either path is
+		// not promised; the classification is recorded, everything else is still compared
+		region = "not-judged(" + u + ")"
+		if op.NoJudgeCode {
+			u = "text-equals-a-sentinel"
+			region = "not-judged(text equals a sentinel's)"
+		}
 		var keep []string
 		for _, f := range df {
-			if f != "Code" {
+			if f != "Code" && f != "from-the-future-substring" {
 				keep = append(keep, f)
 			}
+		}
+		if len(keep) != len(df) {
+			r.Count("unpromised_error_classified_differently/"+u, 1)
+		} else {
+			r.Count("unpromised_error_classified_alike", 1)
 		}
 		df = keep
 	}
@@ -328,7 +366,7 @@ func (x *runner) judge(cr *caseRun, opIdx int, clause string, d, p Obs, backErr,
 			call = "SubmitWithOptions"
 		}
 		what := cr.c.Name
-		row := tableRow{Call: call, Error: what, Direct: d.Code, Proxied: p.Code, Judged: !op.NoJudgeCode, Region: region,
+		row := tableRow{Call: call, Error: what, Direct: d.Code, Proxied: p.Code, Judged: !strings.HasPrefix(region, "not-judged"), Region: region,
 			Agreeing: d.Code == p.Code, sortKey: cr.c.Part + "|" + fmt.Sprintf("%06d", cr.c.ID)}
 		x.mu.Lock()
 		x.table[row.sortKey] = row
@@ -359,6 +397,33 @@ func (x *runner) judge(cr *caseRun, opIdx int, clause string, d, p Obs, backErr,
 		r.Violation(clause, detail, w)
 		cr.aborted = true // the two worlds may have diverged; later calls of this case say nothing
 	}
+}
+
+// unpromised says whether the error scripted for this call lies outside the statement's "every error the
+// DA interface defines" + cancellation: texts that merely look like a sentinel's, and the standard library's
+// context errors returned by the DA layer while the caller's context is alive (not a cancellation of this
+// call). It returns a label, "" if the error is a promised one.
+func unpromised(op Op) string {
+	check := func(o Outcome) string {
+		if o.Kind != "err" || o.Err == nil {
+			return ""
+		}
+		switch o.Err.Form {
+		case "look-prefix", "look-embed":
+			return o.Err.Form
+		}
+		if (o.Err.Base == "context.Canceled" || o.Err.Base == "context.DeadlineExceeded") && op.ctx() == "live" {
+			return o.Err.Base + "-under-a-live-context"
+		}
+		return ""
+	}
+	if u := check(op.Out); u != "" {
+		return u
+	}
+	if op.GetFail != nil {
+		return check(op.GetFail.Out)
+	}
+	return ""
 }
 
 // finding reports a failure of predicted shape. Every distinct (finding, classes) pair is reported once;
@@ -393,6 +458,9 @@ func opString(o Op) string {
 			s += fmt.Sprintf(" get#%d->%s", o.GetFail.Chunk, o.GetFail.Out)
 		}
 		return s
+	}
+	if o.Kind == "call" {
+		return fmt.Sprintf("%s(%s%s %v)->%s", o.Method, o.IDSel, o.ProofSel, sizesShort(o.Sizes), o.Out)
 	}
 	return fmt.Sprintf("advance+%d", o.By)
 }
@@ -432,6 +500,92 @@ func lastSubmitRec(recs []callRec) *callRec {
 	return nil
 }
 
+// fitCal is what the harness learnt about the client's notion of "fits" for one limit L (see calibrate).
+type fitCal struct {
+	// InForce: a single blob of L+1 bytes is not sent, i.e. the limit the harness set (or read from the
+	// exported field) is at most L as far as the client is concerned.
+	InForce bool `json:"limit_in_force"`
+	// Raw: a single blob of exactly L bytes is sent whole. Together with InForce this anchors the client's
+	// predicate to plain byte counting; a client that charges framing overhead or encoded size refuses it.
+	Raw  bool   `json:"single_blob_of_exactly_the_limit_is_sent"`
+	Note string `json:"note,omitempty"`
+}
+
+func (c fitCal) String() string {
+	switch {
+	case !c.InForce:
+		return "unknown (limit not in force)"
+	case c.Raw:
+		return "anchored to raw byte counts"
+	}
+	return "stricter than raw byte counts (judged by the client's own answers)"
+}
+
+var probeSeq struct {
+	sync.Mutex
+	n int
+}
+
+// clientSends asks the client, without disturbing the world, how many of the given blobs it would pass on:
+// the call goes through the real client and server to the remote backing, which is scripted to record and
+// discard it. -1: the backing was not called (the client refused or the call failed).
+func (p *pair) clientSends(blobs [][]byte) (int, error) {
+	probeSeq.Lock()
+	probeSeq.n++
+	tag := fmt.Sprintf("c16/probe/%d", probeSeq.n)
+	probeSeq.Unlock()
+	p.remote.scriptSubmit(tag, Outcome{Kind: "discard"})
+	r0 := p.remote.logLen()
+	var callErr error
+	if err := runCall(p.remote, "live", func(ctx context.Context) {
+		_, callErr = p.proxied.SubmitWithOptions(ctx, blobs, 0, callerNamespace, []byte(tag))
+	}); err != nil {
+		return -1, err
+	}
+	_ = callErr
+	for _, rec := range p.remote.logFrom(r0) {
+		if rec.Kind == "submit" && rec.Tag == tag {
+			if len(rec.Received) > len(blobs) || !sameList(rec.Received, blobs[:len(rec.Received)]) {
+				return -1, fmt.Errorf("probe: what arrived is not a prefix of what was given")
+			}
+			return len(rec.Received), nil
+		}
+	}
+	return -1, nil
+}
+
+// calibrate learns, for one client limit (0 = the one NewClient chooses), whether the limit is in force
+// and whether the client counts raw bytes.
+func calibrate(clientLimit uint64, logger logging.EventLogger) (fitCal, uint64, error) {
+	p, err := newPair(cfgVariants[0], clientLimit, logger)
+	if err != nil {
+		return fitCal{}, 0, err
+	}
+	defer p.close()
+	L := p.limit
+	atLimit, err := p.clientSends([][]byte{make([]byte, L)})
+	if err != nil {
+		return fitCal{}, L, err
+	}
+	above, err := p.clientSends([][]byte{make([]byte, L+1)})
+	if err != nil {
+		return fitCal{}, L, err
+	}
+	c := fitCal{InForce: above != 1, Raw: atLimit == 1}
+	if !c.InForce {
+		c.Note = fmt.Sprintf("a single blob of %d bytes was passed on although the limit is %d: the client does not filter with the value of its MaxBlobSize field", L+1, L)
+	}
+	return c, L, nil
+}
+
+func rawSum(b [][]byte) uint64 {
+	var s uint64
+	for _, x := range b {
+		s += uint64(len(x))
+	}
+	return s
+}
+
 func (cr *caseRun) doSubmit(i int, op Op) {
 	x, r, p := cr.x, cr.x.r, cr.p
 	blobs := mkBlobs(cr.c.Seed, i, op.Sizes)
@@ -464,11 +618,24 @@ func (cr *caseRun) doSubmit(i int, op Op) {
 	}
 	po := obsSubmit(pres)
 	rrec := lastSubmitRec(p.remote.logFrom(r0))
+	m := -1
+	if rrec != nil {
+		m = len(rrec.Received)
+	}
+
+	if op.ctx() != "live" && rrec == nil && !cr.cal.Raw && coreda.StatusCode(po.Code) == coreda.StatusTooBig {
+		// A client that counts sizes more strictly than raw bytes refused a list the generator took for fitting,
+		// in a call whose context is dead as well: two causes of failure in one call, no order of precedence in
+		// the statement. Neither DA layer was touched; the call is not judged.
+		r.Count("two_causes_in_one_call_under_a_stricter_client_predicate:not_judged", 1)
+		return
+	}
 
 	// (c) size clause and count clause, on the proxied side alone
+	refusedByClient := false
 	if op.ctx() == "live" {
 		w := func() map[string]any {
-			ex := map[string]any{"reference_prefix_k": k, "first_unfitting_blob_is_itself_too_big": tooBig}
+			ex := map[string]any{"raw_byte_prefix_k": k, "first_unfitting_blob_is_itself_too_big": tooBig}
 			if rrec != nil {
 				ex["backing_received_sizes"] = sizesOf(rrec.Received)
 				ex["backing_stored"] = rrec.Stored
@@ -477,37 +644,94 @@ func (cr *caseRun) doSubmit(i int, op Op) {
 			}
 			return x.witness(cr, i, nil, &po, ex)
 		}
-		switch {
-		case rrec == nil && len(blobs) > 0 && !tooBig:
-			r.Violation("longest-prefix", fmt.Sprintf("case %d (%s) op %d %s: the first %d blobs fit the client's limit %d but nothing reached the DA layer; result code=%s count=%d",
-				cr.c.ID, cr.c.Name, i, opString(op), k, p.limit, codeName(po.Code), po.Count), w())
+		fail := func(clause, format string, a ...any) {
+			r.Violation(clause, fmt.Sprintf("case %d (%s) op %d %s: ", cr.c.ID, cr.c.Name, i, opString(op))+fmt.Sprintf(format, a...), w())
 			cr.aborted = true
-			return
-		case rrec == nil && tooBig:
-			r.Hit("too-big")
-			if coreda.StatusCode(po.Code) != coreda.StatusTooBig || po.Count != 0 || len(po.ids) != 0 {
-				r.Violation("too-big", fmt.Sprintf("case %d (%s) op %d %s: blob %d is above the client's limit %d and nothing was sent, but the result is code=%s count=%d ids=%d (want TooBig, 0, none)",
-					cr.c.ID, cr.c.Name, i, opString(op), k, p.limit, codeName(po.Code), po.Count, len(po.ids)), w())
-				cr.aborted = true
+		}
+		switch {
+		case rrec == nil && len(blobs) == 0:
+			// an empty list may be answered without a round trip
+		case rrec == nil:
+			// The client sent nothing. The only reason the statement knows is "blob too big": some blob of
+			// the list must not fit by itself (by raw size, or, for a client that counts differently, by
+			// the client's own answer when given that blob alone).
+			refusedByClient = true
+			justified := false
+			for _, b := range blobs {
+				if uint64(len(b)) > p.limit {
+					justified = true
+					break
+				}
+			}
+			if !justified && !cr.cal.Raw {
+				for j, b := range blobs {
+					if j == 16 {
+						break
+					}
+					n, err := p.clientSends([][]byte{b})
+					if err != nil {
+						cr.inconclusive(i, "probe: "+err.Error())
+						return
+					}
+					r.Count("own_predicate_probes", 1)
+					if n != 1 {
+						justified = true
+						break
+					}
+				}
+				if !justified && len(blobs) > 16 {
+					cr.inconclusive(i, "nothing was sent and none of the first 16 blobs is refused alone; the others were not probed")
+					return
+				}
+			}
+			if !justified {
+				fail("longest-prefix", "every blob fits the client's limit %d on its own (the first %d together do), but nothing reached the DA layer; result code=%s count=%d message=%q",
+					p.limit, k, codeName(po.Code), po.Count, trunc(po.Message, 200))
 				return
 			}
-		case rrec != nil:
-			if k < len(blobs) {
+			r.Hit("too-big")
+			if coreda.StatusCode(po.Code) != coreda.StatusTooBig || po.Count != 0 || len(po.ids) != 0 {
+				fail("too-big", "a blob is above the client's limit %d and nothing was sent, but the result is code=%s count=%d ids=%d (want TooBig, 0, none)",
+					p.limit, codeName(po.Code), po.Count, len(po.ids))
+				return
+			}
+		default:
+			if m < len(blobs) {
 				r.Hit("longest-prefix")
 			}
 			if tooBig {
 				r.Hit("too-big")
 			}
-			if !sameList(rrec.Received, blobs[:k]) || (tooBig && k == 0) {
-				r.Violation("longest-prefix", fmt.Sprintf("case %d (%s) op %d %s: client limit %d, the longest fitting prefix is the first %d of %d blobs, but the DA layer received %d blobs of sizes %v",
-					cr.c.ID, cr.c.Name, i, opString(op), p.limit, k, len(blobs), len(rrec.Received), sizesShort(sizesOf(rrec.Received))), w())
-				cr.aborted = true
+			switch {
+			case m > len(blobs) || !sameList(rrec.Received, blobs[:m]):
+				fail("longest-prefix", "the DA layer received %d blobs of sizes %v: not a prefix of the %d blobs given", m, sizesShort(sizesOf(rrec.Received)), len(blobs))
 				return
+			case rawSum(rrec.Received) > p.limit:
+				fail("longest-prefix", "the DA layer received %d blobs of %d bytes in all, above the client's limit %d", m, rawSum(rrec.Received), p.limit)
+				return
+			case m == 0:
+				fail("longest-prefix", "a submission without blobs was sent for a list of %d blobs (limit %d)", len(blobs), p.limit)
+				return
+			case m < len(blobs) && cr.cal.Raw && m < k:
+				fail("longest-prefix", "client limit %d (a single blob of exactly that size is sent), the first %d of %d blobs fit, but the DA layer received only %d (sizes %v)",
+					p.limit, k, len(blobs), m, sizesShort(sizesOf(rrec.Received)))
+				return
+			case m < len(blobs) && !cr.cal.Raw:
+				// the client counts sizes its own way: the prefix is the longest if the client itself, given
+				// one blob more, does not pass all of them on
+				n, err := p.clientSends(blobs[:m+1])
+				if err != nil {
+					cr.inconclusive(i, "probe: "+err.Error())
+					return
+				}
+				r.Count("own_predicate_probes", 1)
+				if n == m+1 {
+					fail("longest-prefix", "the client passed on %d of %d blobs, but given the first %d alone it passes on all of them: the prefix was not the longest that fits", m, len(blobs), m+1)
+					return
+				}
 			}
 			if rrec.Tag != tag || rrec.GasPrice != op.Gas {
-				r.Violation("wire-args", fmt.Sprintf("case %d (%s) op %d: options/gas price changed on the way: sent (%q, %v) arrived (%q, %v)",
-					cr.c.ID, cr.c.Name, i, tag, op.Gas, rrec.Tag, rrec.GasPrice), w())
-				cr.aborted = true
+				fail("wire-args", "options/gas price changed on the way: sent (%q, %v) arrived (%q, %v)", tag, op.Gas, rrec.Tag, rrec.GasPrice)
 				return
 			}
 			r.Hit("wire-args")
@@ -528,25 +752,25 @@ func (cr *caseRun) doSubmit(i int, op Op) {
 			bad = true
 		}
 		if bad {
-			r.Violation("count-is-stored", fmt.Sprintf("case %d (%s) op %d %s: result code=%s says %d blobs submitted (%d ids) but the DA layer behind the proxy stored %d of the %d given",
-				cr.c.ID, cr.c.Name, i, opString(op), codeName(po.Code), po.Count, len(po.ids), storedN, len(blobs)), w())
-			cr.aborted = true
+			fail("count-is-stored", "result code=%s says %d blobs submitted (%d ids) but the DA layer behind the proxy stored %d of the %d given",
+				codeName(po.Code), po.Count, len(po.ids), storedN, len(blobs))
 			return
 		}
 	}
 
-	// direct path
-	dblobs := blobs
-	if cr.mode == "prefix" {
-		dblobs = blobs[:k]
-	}
+	// direct path: "the same call" is the one the client made, i.e. the direct DA layer is given what the DA
+	// layer behind the proxy received (checked above to be a prefix within the limit and the longest one)
 	var do Obs
 	var drec *callRec
-	if cr.mode == "prefix" && tooBig && rrec == nil && op.ctx() == "live" {
+	if refusedByClient {
 		// nothing was sent: the reference is the statement's "blob too big", checked above; the direct
 		// backing is not called either, so that the two stay in step
 		do = Obs{Code: uint64(coreda.StatusTooBig)}
 	} else {
+		dblobs := blobs[:min(k, len(blobs))]
+		if rrec != nil && m <= len(blobs) {
+			dblobs = blobs[:m]
+		}
 		d0 := p.direct.logLen()
 		var dres coreda.ResultSubmit
 		if err := runCall(p.direct, op.ctx(), func(ctx context.Context) {
@@ -695,8 +919,9 @@ func (cr *caseRun) doRetrieve(i int, op Op) {
 	drecs := p.direct.logFrom(d0)
 	do, po := obsRetrieve(dres), obsRetrieve(pres)
 	if coreda.StatusCode(do.Code) == coreda.StatusSuccess && coreda.StatusCode(po.Code) == coreda.StatusSuccess {
+		r.Hit("timestamp-agree")
 		x.mu.Lock()
-		if do.tsUnix == po.tsUnix {
+		if do.ts.Equal(po.ts) {
 			x.tsEqual++
 		} else {
 			x.tsDiff++
@@ -728,6 +953,185 @@ func (cr *caseRun) doRetrieve(i int, op Op) {
 	x.judge(cr, i, "retrieve-agree", do, po, backErr, nil, true)
 }
 
+// errIdentity lists which of the interface's errors (and the two context errors) e is, by errors.Is.
+func errIdentity(e error) string {
+	if e == nil {
+		return ""
+	}
+	var out []string
+	for _, s := range sentinels {
+		if errors.Is(e, s.Err) {
+			out = append(out, s.Name)
+		}
+	}
+	if errors.Is(e, context.Canceled) {
+		out = append(out, "context.Canceled")
+	}
+	if errors.Is(e, context.DeadlineExceeded) {
+		out = append(out, "context.DeadlineExceeded")
+	}
+	return strings.Join(out, "+")
+}
+
+// doCall makes one call of an interface method that has no node-side helper (Submit, GetProofs, Validate,
+// Commit, GasPrice, GasMultiplier) on both paths with the same arguments and compares what comes back:
+// the values, and whether there is an error. Which error it is (identity) is only recorded: the statement
+// promises identical classification for the classes the node's helpers tell apart, and those helpers
+// sit on SubmitWithOptions / GetIDs / Get.
+func (cr *caseRun) doCall(i int, op Op) {
+	x, r, p := cr.x, cr.x.r, cr.p
+	fmt.Fprintf(&cr.key, "C%s/%s%s/%s/n%d;", op.Method, op.IDSel, op.ProofSel, op.Out, bucket(len(op.Sizes)))
+	if op.Out.Kind != "real" || op.IDSel != "last" || op.ProofSel != "" {
+		cr.nontriv = true
+	}
+	name := strings.ToLower(op.Method)
+	// arguments (the ids handed out are the same on both paths: compared by submit-agree)
+	var ids [][]byte
+	if strings.HasPrefix(op.IDSel, "last") {
+		for _, st := range p.direct.image()[cr.lastH] {
+			ids = append(ids, st.id)
+		}
+	}
+	if strings.HasSuffix(op.IDSel, "unknown") {
+		ids = append(ids, []byte("c16-no-such-id-0123456789abcdef"))
+	}
+	var proofs [][]byte
+	if op.Method == "Validate" {
+		for _, id := range ids {
+			pr := append([]byte("proof:"), id...)
+			if st, ok := p.direct.lookup(id); ok {
+				pr = proofOf(st)
+			}
+			proofs = append(proofs, pr)
+		}
+		switch op.ProofSel {
+		case "/swap":
+			if len(proofs) > 1 {
+				proofs[0], proofs[len(proofs)-1] = proofs[len(proofs)-1], proofs[0]
+			}
+		case "/corrupt":
+			for j := range proofs {
+				if j%2 == 0 {
+					proofs[j] = append(append([]byte{}, proofs[j]...), 'x')
+				}
+			}
+		case "/short":
+			if len(proofs) > 0 {
+				proofs = proofs[:len(proofs)-1]
+			}
+		}
+	}
+	blobs := mkBlobs(cr.c.Seed, i, op.Sizes)
+	if op.Method == "Submit" {
+		p.remote.scriptSubmit("", op.Out)
+		p.direct.scriptSubmit("", op.Out)
+	} else if op.Out.Kind == "err" {
+		o := op.Out
+		p.remote.scriptMethod(name, &o)
+		p.direct.scriptMethod(name, &o)
+	}
+	defer func() {
+		for _, b := range []*backing{p.remote, p.direct} {
+			b.scriptSubmit("", real())
+			b.scriptMethod(name, nil)
+		}
+	}()
+	type result struct {
+		lists [][]byte
+		bools []bool
+		num   float64
+		err   error
+	}
+	call := func(da coreda.DA, b *backing) (res result, recs []callRec, failed error) {
+		l0 := b.logLen()
+		failed = runCall(b, "live", func(ctx context.Context) {
+			switch op.Method {
+			case "Submit":
+				res.lists, res.err = da.Submit(ctx, blobs, op.Gas, callerNamespace)
+			case "GetProofs":
+				res.lists, res.err = da.GetProofs(ctx, ids, callerNamespace)
+			case "Validate":
+				res.bools, res.err = da.Validate(ctx, ids, proofs, callerNamespace)
+			case "Commit":
+				res.lists, res.err = da.Commit(ctx, blobs, callerNamespace)
+			case "GasPrice":
+				res.num, res.err = da.GasPrice(ctx)
+			case "GasMultiplier":
+				res.num, res.err = da.GasMultiplier(ctx)
+			}
+		})
+		return res, b.logFrom(l0), failed
+	}
+	pr, precs, err := call(p.proxied, p.remote)
+	if err != nil {
+		cr.callFailed(i, "method-agree", "proxied "+op.Method, err)
+		return
+	}
+	dr, drecs, err := call(p.direct, p.direct)
+	if err != nil {
+		cr.callFailed(i, "method-agree", "direct "+op.Method, err)
+		return
+	}
+	r.Hit("method-agree")
+	r.Hit("method-agree/" + op.Method)
+	if dr.err != nil || pr.err != nil {
+		r.Hit("error-class-agree")
+		if errIdentity(dr.err) == errIdentity(pr.err) {
+			r.Count("method_error_identity_same", 1)
+		} else {
+			r.Count("method_error_identity_differs/"+op.Method, 1)
+		}
+	}
+	var df []string
+	if (dr.err == nil) != (pr.err == nil) {
+		df = append(df, "error")
+	}
+	if !sameList(dr.lists, pr.lists) {
+		df = append(df, "values")
+	}
+	if len(dr.bools) != len(pr.bools) {
+		df = append(df, "results")
+	} else {
+		for j := range dr.bools {
+			if dr.bools[j] != pr.bools[j] {
+				df = append(df, "results")
+				break
+			}
+		}
+	}
+	if dr.num != pr.num {
+		df = append(df, "value")
+	}
+	if op.Method == "Submit" {
+		var ds, ps *callRec
+		if ds, ps = lastSubmitRec(drecs), lastSubmitRec(precs); ds != nil && ps != nil {
+			if ds.Stored != ps.Stored || !sameList(ds.IDs, ps.IDs) {
+				df = append(df, "stored")
+			}
+			if ps.GasPrice != op.Gas {
+				df = append(df, "gas price received")
+			}
+		} else if (ds == nil) != (ps == nil) {
+			df = append(df, "whether the DA layer was called")
+		}
+		if dr.err == nil && len(dr.lists) > 0 {
+			if h, _, e := coreda.SplitID(dr.lists[0]); e == nil {
+				cr.lastH = h
+			}
+		}
+	}
+	if len(df) == 0 {
+		return
+	}
+	show := func(res result) map[string]any {
+		return map[string]any{"values": short(res.lists), "results": res.bools, "value": res.num, "error": errText(res.err)}
+	}
+	r.Violation("method-agree", fmt.Sprintf("case %d (%s %s) op %d %s: the direct and the proxied call differ in %v: direct (%d values, %v, %v, err=%q) | proxied (%d values, %v, %v, err=%q)",
+		cr.c.ID, cr.c.Part, cr.c.Name, i, opString(op), df, len(dr.lists), dr.bools, dr.num, errText(dr.err), len(pr.lists), pr.bools, pr.num, errText(pr.err)),
+		x.witness(cr, i, nil, nil, map[string]any{"direct_result": show(dr), "proxied_result": show(pr), "differs_in": df, "ids_given": short(ids), "proofs_given": short(proofs)}))
+	cr.aborted = true
+}
+
 func trunc(s string, n int) string {
 	if len(s) > n {
 		return s[:n] + "…"
@@ -737,17 +1141,25 @@ func trunc(s string, n int) string {
 
 func (x *runner) runCase(c Case) {
 	r := x.r
+	cal := x.cal[c.ClientLimit]
+	if !cal.InForce {
+		// the harness cannot say which limit this client filters with: nothing about sizes can be decided
+		r.Count("cases_skipped_client_limit_not_in_force", 1)
+		return
+	}
 	p, err := newPair(c.Cfg, c.ClientLimit, x.logger)
 	if err != nil {
 		r.Inconclusive(fmt.Sprintf("case %d: world did not start: %v", c.ID, err))
 		return
 	}
 	defer p.close()
-	cr := &caseRun{x: x, c: c, p: p, mode: "prefix"}
+	cr := &caseRun{x: x, c: c, p: p, cal: cal}
+	price, mult := 0.001+float64(c.Seed%1000)/1e4, 1.1+float64(c.Seed%7)/10
+	p.direct.setGas(price, mult)
+	p.remote.setGas(price, mult)
 	switch c.BackLimit {
 	case "same":
 		p.direct.cfg.Limit, p.remote.cfg.Limit = p.limit, p.limit
-		cr.mode = "full"
 	case "half":
 		p.direct.cfg.Limit, p.remote.cfg.Limit = max(p.limit/2, 1), max(p.limit/2, 1)
 	}
@@ -768,6 +1180,9 @@ func (x *runner) runCase(c Case) {
 			executed++
 		case "retrieve":
 			cr.doRetrieve(i, op)
+			executed++
+		case "call":
+			cr.doCall(i, op)
 			executed++
 		}
 	}
@@ -813,25 +1228,25 @@ func Run(r *vk.Run) {
 
 	r.Rule = "A case is a sequence of node-side calls (types.SubmitWithHelpers / types.RetrieveWithHelpers, harness height advances) made call by call on a " +
 		"scriptable DA layer directly and on an identical one behind the real jsonrpc server+client on loopback. Part E enumerates, in both tiers and completely, " +
-		"every sentinel of core/da and the two context errors x {plain, wrapped, doubly wrapped / sentinel-first, same text without identity, text merely containing the sentinel's} " +
-		"x call kind {SubmitWithOptions, GetIDs, Get chunk 0 and 2}, the error-free forms of 'nothing here', cancellation/deadline before and during a blocked call on each call kind, " +
+		"every sentinel of core/da and the two context errors x {plain, wrapped, doubly wrapped, sentinel first, sentinel in the middle, same text without identity, text merely containing the sentinel's (the last three kinds recorded, not judged)} " +
+		"x call kind {SubmitWithOptions, GetIDs, Get chunk 0 and 2}, the six interface methods without a helper (Submit, GetProofs, Validate, Commit, GasPrice, GasMultiplier: honest, failing, unknown ids, swapped/corrupted/missing proofs), the error-free forms of 'nothing here', cancellation/deadline before and during a blocked call on each call kind, " +
 		"and heights with blobs / without / zero / from the future (near, far, >2^53, max) — 'exhaustive' refers to this matrix. Part S enumerates blob lists around the client's limit " +
 		"(limits 1, 7, 100, 1000 and the default; sums L-1, L, L+1; oversize blob at each position; empty; zero-length blobs; 1000 small blobs; DA layer with the same, no, or half the limit). " +
 		"Part R draws random sequences of 8-19 calls from all of these. A case is non-trivial when at least one call has a non-accept outcome (scripted error/partial/blocking outcome, dead or dying context, " +
 		"batch not fitting the limit, or a height without blobs / from the future); distinct = part, limits, DA manners and the per-call (kind, size class, outcome, context) sequence."
 	r.Assume("the two backings are instances of one deterministic type (props/c16/backing.go); ids are (height, running number, hash), so equal call sequences give equal ids")
-	r.Assume("the client's size limit is the exported field jsonrpc.API.MaxBlobSize: NewClient sets the package default; small limits are set through the field as in da/jsonrpc/proxy_test.go")
+	r.Assume("the client's size limit is the exported field jsonrpc.API.MaxBlobSize: NewClient sets the package default; small limits are set through the field as in da/jsonrpc/proxy_test.go; whether the client filters with that value, and whether it counts raw bytes, is measured once per limit (client_fit_calibration)")
 	r.Assume("the helpers types.SubmitWithHelpers/RetrieveWithHelpers are the observation point on both paths; they are not themselves judged")
 	r.Assume("HTTP transport on 127.0.0.1 (the only one NewClient is used with by the node's commands); websocket transport not exercised")
 
-	// learn the limit NewClient chooses
-	probe, err := newPair(cfgVariants[0], 0, logger)
+	// learn the limit NewClient chooses, and how the client counts against it
+	x.cal = map[uint64]fitCal{}
+	cal0, defaultLimit, err := calibrate(0, logger)
 	if err != nil {
-		r.Inconclusive("cannot start a jsonrpc server/client pair on loopback: " + err.Error())
+		r.Inconclusive("cannot start a jsonrpc server/client pair on loopback / calibrate it: " + err.Error())
 		return
 	}
-	defaultLimit := probe.limit
-	probe.close()
+	x.cal[0] = cal0
 	r.Set("client_default_limit", defaultLimit)
 
 	var cases []Case
@@ -860,6 +1275,28 @@ func Run(r *vk.Run) {
 			}
 		}
 	}
+	// calibrate every limit the cases set through the exported field (a client that copies the limit
+	// elsewhere when it is built would not notice the override: then nothing can be decided for that limit)
+	calEv := map[string]fitCal{"default": cal0}
+	for _, c := range cases {
+		if _, ok := x.cal[c.ClientLimit]; ok {
+			continue
+		}
+		cal, _, err := calibrate(c.ClientLimit, logger)
+		if err != nil {
+			cal = fitCal{Note: "calibration failed: " + err.Error()}
+		}
+		x.cal[c.ClientLimit] = cal
+		calEv[fmt.Sprint(c.ClientLimit)] = cal
+	}
+	for name, cal := range calEv {
+		if !cal.InForce {
+			r.Inconclusive(fmt.Sprintf("client limit %s: %s; the cases with this limit are not run", name, cal.Note))
+		} else if !cal.Raw {
+			r.Count("limits_where_client_counts_stricter_than_raw_bytes", 1)
+		}
+	}
+	r.Set("client_fit_calibration", calEv)
 	if only := os.Getenv("C16_ONLY"); only != "" { // development aid
 		var f []Case
 		for _, c := range cases {
@@ -906,7 +1343,9 @@ func Run(r *vk.Run) {
 	r.SetExhaustive(os.Getenv("C16_ONLY") == "")
 
 	for clause, n := range map[string]int64{"submit-agree": 100, "retrieve-agree": 100, "error-class-agree": 100, "cancel-agree": 10,
-		"future-substring-agree": 10, "count-is-stored": 50, "longest-prefix": 30, "too-big": 15, "wire-args": 100, "state-agree": 100} {
+		"future-substring-agree": 10, "count-is-stored": 50, "longest-prefix": 30, "too-big": 15, "wire-args": 100, "state-agree": 100,
+		"timestamp-agree": 50, "method-agree": 60, "method-agree/Submit": 5, "method-agree/GetProofs": 5, "method-agree/Validate": 5, "method-agree/Commit": 5,
+		"method-agree/GasPrice": 3, "method-agree/GasMultiplier": 3} {
 		if os.Getenv("C16_ONLY") == "" {
 			r.Require(clause, n)
 		}
